@@ -192,6 +192,7 @@ fn sorted<T: Ord>(mut v: Vec<T>) -> Vec<T> {
 /// The oracle. `via` names the observation point and is part of the failure key.
 pub fn judge_route(via: &str, vrps: &[MOrigin], r: &Route, obs: &Observed, info: &mut CaseInfo) -> Verdict {
     let e = expect(vrps, r);
+    info.class(format!("leg={}", via));
     info.class(format!("state={}", e.state.name()));
     let verdict_kinds = (!e.matched.is_empty()) as u8 + (e.as_only > 0) as u8 + (e.len_only > 0) as u8 + (e.both > 0) as u8;
     info.nt(e.covering.len() >= 2 && verdict_kinds >= 2);
@@ -494,6 +495,7 @@ fn prop_cli(env: &Env, case: &Case, info: &mut CaseInfo) -> Verdict {
         args.push("--json".into());
     }
     if single {
+        info.class("cli_single_route_form");
         args.extend(["--asn".into(), routes[0].asn.to_string(), "--prefix".into(), routes[0].text()]);
     } else {
         args.extend(["-i".into(), s(p("in"))]);
@@ -510,6 +512,7 @@ fn prop_cli(env: &Env, case: &Case, info: &mut CaseInfo) -> Verdict {
     } else {
         let want: String = routes.iter().map(|r| format!("{} => AS{}: {}\n", r.text(), r.asn, expect(&vrps, r).state.name())).collect();
         for r in &routes {
+            info.class("leg=cli-plain");
             info.class(format!("state={}", expect(&vrps, r).state.name()));
             let e = expect(&vrps, r);
             info.nt(e.covering.len() >= 2 && e.matched.len() < e.covering.len());
@@ -628,14 +631,32 @@ pub fn run(ctx: &Ctx, rep: &mut Report, replay: Option<&serde_json::Value>) {
         }
         return;
     }
-    run_prop(ctx, rep, "api", ctx.tier.pick(6_000, 250_000), case_strategy(12), prop_api);
-    run_prop(ctx, rep, "http", ctx.tier.pick(700, 20_000), case_strategy(9), |c, i| prop_http(&env, c, i));
-    match start_listener() {
-        Some((served, addr)) => run_prop(ctx, rep, "post", ctx.tier.pick(150, 3_000), case_strategy(40), |c, i| prop_post(&env, &served, addr, c, i)),
-        None => {
-            eprintln!("C20: cannot start loopback listener");
-            std::process::exit(2);
+    // VERIF_ONLY_SUB=<api|http|post|cli> restricts the run to one leg (used for sensitivity runs).
+    let only = std::env::var("VERIF_ONLY_SUB").ok();
+    let want = |s: &str| only.as_deref().map(|o| o == s).unwrap_or(true);
+    if want("api") {
+        run_prop(ctx, rep, "api", ctx.tier.pick(6_000, 250_000), case_strategy(12), prop_api);
+    }
+    if want("http") {
+        run_prop(ctx, rep, "http", ctx.tier.pick(700, 20_000), case_strategy(9), |c, i| prop_http(&env, c, i));
+    }
+    if want("post") {
+        match start_listener() {
+            Some((served, addr)) => run_prop(ctx, rep, "post", ctx.tier.pick(150, 3_000), case_strategy(40), |c, i| prop_post(&env, &served, addr, c, i)),
+            None => {
+                eprintln!("C20: cannot start loopback listener");
+                std::process::exit(2);
+            }
         }
     }
-    run_prop(ctx, rep, "cli", ctx.tier.pick(24, 400), case_strategy(6), |c, i| prop_cli(&env, c, i));
+    if want("cli") {
+        // one child process per case: sampled cases without shrinking (the other legs deliver
+        // shrunk counterexamples for the same oracle)
+        for case in sample_strategy(&case_strategy(6), ctx.seed_for("cli"), ctx.tier.pick(24, 400)) {
+            if rep.violated() {
+                break;
+            }
+            run_case(ctx, rep, "cli", &case, |c, i| prop_cli(&env, c, i));
+        }
+    }
 }
